@@ -187,7 +187,7 @@ Proof.
     by (unfold cd; rewrite zlen_app, sp_central_len; lia).
   assert (F : forall i, (i < 17)%nat -> cdf (off_of i apn_cdh_widths) (nth i apn_cdh_widths 0) cd = nth i (cdh_vals m off) 0 mod 256 ^ nth i apn_cdh_widths 0)
     by (intros i Hi; unfold cd; now apply cdf_central).
-  cbn [read_entries]. fold cd.
+  cbn [read_entries]. fold cd. unfold rwd_cd_short, rwd_hdr_short, rwd_ent_short.
   replace (zlen cd <? 4) with false by lia.
   assert (Hsig : le_dec (ztake 4 cd) = A_CDH_SIG).
   { rewrite <- zslice_0. change (le_dec (zslice 0 4 cd)) with (cdf (off_of 0 apn_cdh_widths) (nth 0 apn_cdh_widths 0) cd). rewrite F by lia. reflexivity. }
@@ -221,14 +221,12 @@ Proof.
   rewrite (Z.mod_small (m_creator m)), (Z.mod_small (m_reader m)), (Z.mod_small (sp_flags m)), (Z.mod_small (m_method m)),
           (Z.mod_small (m_mtime m)), (Z.mod_small (m_mdate m)), (Z.mod_small (m_crc m)), (Z.mod_small (m_iattrs m)), (Z.mod_small (m_eattrs m)) by lia.
   (* the four slices *)
+  replace (zlen cd <? 46 + zlen (m_name m) + zlen (sp_cextra m off) + zlen (m_comment m)) with false by lia.
   assert (D1 : zdrop 46 cd = m_name m ++ sp_cextra m off ++ m_comment m ++ R).
   { unfold cd, sp_central. rewrite <- !app_assoc. apply zdrop_exact_n. now rewrite sp_cdh_len. }
-  rewrite D1. rewrite !zlen_app.
-  replace (zlen (m_name m) + (zlen (sp_cextra m off) + (zlen (m_comment m) + zlen R)) <? zlen (m_name m)) with false by lia.
-  rewrite zdrop_app_exact, ztake_app_exact. rewrite !zlen_app.
-  replace (zlen (sp_cextra m off) + (zlen (m_comment m) + zlen R) <? zlen (sp_cextra m off)) with false by lia.
-  rewrite zdrop_app_exact, ztake_app_exact. rewrite !zlen_app.
-  replace (zlen (m_comment m) + zlen R <? zlen (m_comment m)) with false by lia.
+  rewrite D1.
+  rewrite zdrop_app_exact, ztake_app_exact.
+  rewrite zdrop_app_exact, ztake_app_exact.
   rewrite zdrop_app_exact, ztake_app_exact.
   destruct Hscan as (S1 & S2 & S3 & S4 & S5).
   set (st := z64_scan _ _ _ _) in *.
@@ -247,7 +245,7 @@ Lemma read_entries_centrals : forall ps tail fuel,
   (length ps < fuel)%nat -> read_entries fuel (centrals ps ++ tail) = Ok (parsed ps, tail).
 Proof.
   induction ps as [|[m off] ps IH]; intros tail fuel Hok Ht Hsig Hf.
-  - destruct fuel as [|k]; [cbn in Hf; lia|]. cbn [centrals map concat app read_entries].
+  - destruct fuel as [|k]; [cbn in Hf; lia|]. cbn [centrals map concat app read_entries]. unfold rwd_cd_short.
     replace (zlen tail <? 4) with false by lia. rewrite Hsig. reflexivity.
   - destruct fuel as [|k]; [cbn in Hf; lia|]. inversion Hok as [|? ? H1 H2]; subst.
     unfold centrals. cbn [map concat fst snd]. rewrite <- app_assoc.
@@ -454,7 +452,7 @@ Proof.
     assert (HT : zlen T = 98) by (unfold T; rewrite !zlen_app, e64_len, l64_len, eocd_len; reflexivity).
     assert (Hzl : zlen z = zlen L + zlen C + 98) by (rewrite Hz, !zlen_app, HT; lia).
     eexists. unfold read_zip. rewrite Hfd. cbn [bind].
-    replace (zlen z - zlen L <? 0) with false by lia. replace (zlen z - zlen L =? 0) with false by lia.
+    unfold rz_oob. replace (zlen L <? 0) with false by lia. replace (zlen L >? zlen z) with false by lia. cbn [orb]. replace (zlen z - zlen L =? 0) with false by lia.
     assert (Rcd : rd_bytes z (zlen L) (zlen z - zlen L) = Ok (C ++ T)).
     { rewrite Hz at 1. rewrite <- (app_nil_r (C ++ T)) at 1. rewrite <- app_assoc.
       replace (L ++ C ++ T ++ []) with (L ++ (C ++ T) ++ []) by now rewrite <- !app_assoc.
@@ -481,7 +479,7 @@ Proof.
     assert (HT : zlen T = 22) by (unfold T; apply eocd_len).
     assert (Hzl : zlen z = zlen L + zlen C + 22) by (rewrite Hz, !zlen_app, HT; lia).
     eexists. unfold read_zip. rewrite Hfd. cbn [bind].
-    replace (zlen z - zlen L <? 0) with false by lia. replace (zlen z - zlen L =? 0) with false by lia.
+    unfold rz_oob. replace (zlen L <? 0) with false by lia. replace (zlen L >? zlen z) with false by lia. cbn [orb]. replace (zlen z - zlen L =? 0) with false by lia.
     assert (Rcd : rd_bytes z (zlen L) (zlen z - zlen L) = Ok (C ++ T)).
     { rewrite Hz at 1. replace (L ++ C ++ T) with (L ++ (C ++ T) ++ []) by now rewrite app_nil_r.
       apply rd_bytes_mid; [reflexivity|rewrite !zlen_app, HT; lia]. }
